@@ -488,8 +488,8 @@ def case_C09(seed):
         if bad:
             cl = bad[0][0]
             key = f"C09:{cl}"
-            if cl == 'live-only-if-predecessor-live' and 'widen' in [o[0] for o in done] and case['cfg'].get('non_emitting_states'):
-                key = 'C09:live-only-if-predecessor-live:after-widen-with-non-emitting-states'
+            if cl == 'live-only-if-predecessor-live' and 'widen' in [o[0] for o in done]:
+                key = 'C09:live-only-if-predecessor-live:after-widen'
             viol.append((key, f"after {done}: {bad[0][1]}" + (f" (+{len(bad) - 1} more)" if len(bad) > 1 else ''),
                          {'case': U.case_repr(case), 'ops': [list(map(str, o)) for o in done], 'failed': [list(b) for b in bad[:5]]}))
             break
